@@ -9,6 +9,7 @@
 package main
 
 import (
+	"context"
 	"encoding/binary"
 	"encoding/json"
 	"fmt"
@@ -20,6 +21,7 @@ import (
 
 	ouroboros "github.com/blinklabs-io/gouroboros"
 	"github.com/blinklabs-io/gouroboros/ledger"
+	"github.com/blinklabs-io/gouroboros/pipeline"
 	"github.com/blinklabs-io/gouroboros/protocol/chainsync"
 	pcommon "github.com/blinklabs-io/gouroboros/protocol/common"
 
@@ -174,6 +176,9 @@ type scenario struct {
 	SlowCb  int      `json:"slowcb"`  // callbacks sleep up to this many 100us units
 	StopAt  int      `json:"stop_at"` // call Stop() after this many callbacks (-1: after the script)
 	Coalesc bool     `json:"coalesce"`
+	// Pipe: the client is configured with a real pipeline.BlockPipeline (roll-forward blocks
+	// are applied by its ApplyFunc); PipelineDrainTimeout is left at its zero default
+	Pipe bool `json:"pipe"`
 }
 
 type outcome struct {
@@ -187,6 +192,7 @@ type outcome struct {
 
 func runScenario(sc scenario, seed uint64) (out outcome) {
 	lg := &peer.Log{}
+	var rbSentAt sync.Map // script index of a "B" update -> time.Time it was sent
 	p := peer.New(false)
 	defer p.Close()
 	var mu sync.Mutex
@@ -205,6 +211,9 @@ func runScenario(sc scenario, seed uint64) (out outcome) {
 				}
 			}
 			lg.Add("rep %s", u.key())
+			if u.Kind == "B" {
+				rbSentAt.Store(next, time.Now())
+			}
 			reps++
 			payload = append(payload, u.enc()...)
 			if p.Send(chainsync.ProtocolIdNtC, payload) != nil {
@@ -257,6 +266,7 @@ func runScenario(sc scenario, seed uint64) (out outcome) {
 	rng := vh.NewRng(seed)
 	var cbMu sync.Mutex
 	ncb := 0
+	nrbCalled := 0
 	slow := func() {
 		if sc.SlowCb > 0 {
 			cbMu.Lock()
@@ -265,7 +275,96 @@ func runScenario(sc scenario, seed uint64) (out outcome) {
 			time.Sleep(time.Duration(d) * 100 * time.Microsecond)
 		}
 	}
+	// ---- block pipeline class -------------------------------------------------------
+	// The ApplyFunc of a block that precedes a RollBackward in the script is GATED: it
+	// proceeds only once that rollback's callback has run (which the property forbids)
+	// or 400 ms after the server sent the rollback (a correct client is then sitting in
+	// WaitForDrain).  So on correct code the order is right whatever the timing, and on
+	// code that does not drain first the rollback callback is observed first.
+	var rbCalled sync.Map // ordinal of the rollback -> struct{}
+	rbOrdinal := map[int]int{}
+	var rfIndex []int // script index of the k-th roll forward
+	nrb := 0
+	for i, u := range sc.Script {
+		if u.Kind == "B" {
+			rbOrdinal[i] = nrb
+			nrb++
+		} else {
+			rfIndex = append(rfIndex, i)
+		}
+	}
+	scenarioOver := make(chan struct{})
+	var overOnce sync.Once
+	defer overOnce.Do(func() { close(scenarioOver) })
+	var bp *pipeline.BlockPipeline
+	applied := 0
+	if sc.Pipe {
+		bp = pipeline.NewBlockPipeline(
+			pipeline.WithSkipBodyHashValidation(true),
+			pipeline.WithApplyFunc(func(item *pipeline.BlockItem) error {
+				k := applied // ApplyFunc is called from one goroutine, in sequence order
+				applied++
+				nextRB := -1
+				if k < len(rfIndex) {
+					for j := rfIndex[k] + 1; j < len(sc.Script); j++ {
+						if sc.Script[j].Kind == "B" {
+							nextRB = j
+							break
+						}
+					}
+				}
+				if nextRB >= 0 {
+					start := time.Now()
+				gate:
+					for {
+						if _, ok := rbCalled.Load(rbOrdinal[nextRB]); ok {
+							break
+						}
+						if t, ok := rbSentAt.Load(nextRB); ok && time.Since(t.(time.Time)) > 400*time.Millisecond {
+							break
+						}
+						if time.Since(start) > 4*time.Second {
+							break
+						}
+						select {
+						case <-scenarioOver:
+							break gate
+						case <-time.After(500 * time.Microsecond):
+						}
+					}
+				}
+				b := item.Block()
+				t := item.Tip()
+				lg.Add("ap F %d %s %d %s %d", b.SlotNumber(), vh.Hex(b.Hash().Bytes()), t.Point.Slot, vh.Hex(t.Point.Hash), t.BlockNumber)
+				cbMu.Lock()
+				ncb++
+				cbMu.Unlock()
+				return nil
+			}),
+		)
+		pctx, pcancel := context.WithCancel(context.Background())
+		defer pcancel()
+		if err := bp.Start(pctx); err != nil {
+			out.SyncErr = "pipeline start: " + err.Error()
+			return
+		}
+		defer bp.Stop()
+		go func() {
+			for range bp.Results() {
+			}
+		}()
+		go func() {
+			for e := range bp.Errors() {
+				lg.Add("#perr %v", e)
+			}
+		}()
+	}
+	pipeOpt := func(c *chainsync.Config) {}
+	if sc.Pipe {
+		pipeOpt = chainsync.WithPipeline(bp)
+	}
 	cfg := chainsync.NewConfig(
+		pipeOpt,
 		chainsync.WithPipelineLimit(sc.Limit),
 		chainsync.WithRollForwardFunc(func(ctx chainsync.CallbackContext, typ uint, data any, t chainsync.Tip) error {
 			slow()
@@ -284,6 +383,8 @@ func runScenario(sc scenario, seed uint64) (out outcome) {
 			slow()
 			lg.Add("cb B %d %s %d %s %d", pt.Slot, vh.Hex(pt.Hash), t.Point.Slot, vh.Hex(t.Point.Hash), t.BlockNumber)
 			cbMu.Lock()
+			rbCalled.Store(nrbCalled, struct{}{})
+			nrbCalled++
 			ncb++
 			cbMu.Unlock()
 			return nil
@@ -329,6 +430,7 @@ func runScenario(sc scenario, seed uint64) (out outcome) {
 	if sc.StopAt < 0 {
 		time.Sleep(3 * time.Millisecond) // surplus callbacks / requests would show up here
 	}
+	overOnce.Do(func() { close(scenarioOver) })
 	lg.Add("stop")
 	if skipStop && (sc.Limit == 0 || sc.Limit > 70) {
 		out.StopReturned = true
@@ -397,7 +499,7 @@ func monitor(c *vh.Ctx, sc scenario, out outcome) {
 		case "rep":
 			reps++
 			sentReps = append(sentReps, f[1])
-		case "cb":
+		case "cb", "ap":
 			cbs = append(cbs, f[1])
 			if afterStopped {
 				c.Res.Violate("monitor", "callback-after-stop", "a callback ran after Stop() returned", rep)
@@ -417,7 +519,12 @@ func monitor(c *vh.Ctx, sc scenario, out outcome) {
 			if i < len(sentReps) {
 				want = sentReps[i]
 			}
-			c.Res.Violate("monitor", "callback-differs", fmt.Sprintf("callback %d was (%s), the server's message %d was (%s)", i, k, i, want), rep)
+			key := "callback-differs"
+			if sc.Pipe && strings.HasPrefix(k, "B ") && strings.HasPrefix(want, "F ") {
+				// a rollback was delivered while blocks the server sent before it were still in the pipeline
+				key = "pipeline-rollback-before-earlier-blocks"
+			}
+			c.Res.Violate("monitor", key, fmt.Sprintf("callback %d was (%s), the server's message %d was (%s)", i, k, i, want), rep)
 			break
 		}
 	}
@@ -456,12 +563,14 @@ func coqCase(sc scenario, out outcome) string {
 			evs = append(evs, "ERep "+coqKey(f[1]))
 		case "cb":
 			evs = append(evs, "ECb "+coqKey(f[1]))
+		case "ap":
+			evs = append(evs, "EAp "+coqKey(f[1]))
 		case "stop":
 			// the model has no Stop label: the history up to the Stop call is replayed
-				return fmt.Sprintf("{| c_limit := %d; c_evs := %s |}", sc.Limit, vh.List(evs))
+				return fmt.Sprintf("{| c_limit := %d; c_pipe := %s; c_evs := %s |}", sc.Limit, vh.Bool(sc.Pipe), vh.List(evs))
 		}
 	}
-	return fmt.Sprintf("{| c_limit := %d; c_evs := %s |}", sc.Limit, vh.List(evs))
+	return fmt.Sprintf("{| c_limit := %d; c_pipe := %s; c_evs := %s |}", sc.Limit, vh.Bool(sc.Pipe), vh.List(evs))
 }
 
 func genScenario(r *vh.Rng, limit, n int) scenario {
@@ -481,11 +590,38 @@ func genScenario(r *vh.Rng, limit, n int) scenario {
 	return sc
 }
 
+// pipeline class: RF..RF, RB, RF.., (RB), RF.. with the rollbacks arriving while earlier blocks are gated in ApplyFunc
+func genPipeScenario(r *vh.Rng, limit int) scenario {
+	sc := scenario{Limit: limit, StopAt: -1, Pipe: true, Coalesc: r.Intn(3) == 0}
+	small := []int{0, 1, 1, 0, 2, 3}
+	add := func(kind string, n int) {
+		for i := 0; i < n; i++ {
+			u := update{Kind: kind, Fix: small[r.Intn(len(small))], Tip: r.Intn(len(tips)), Await: r.Intn(5) == 0, Hold: r.Intn(5) == 0}
+			if kind == "B" {
+				u.Fix = r.Intn(len(fixtures))
+			}
+			sc.Script = append(sc.Script, u)
+		}
+	}
+	add("F", 1+r.Intn(5))
+	add("B", 1)
+	add("F", r.Intn(4))
+	if r.Intn(2) == 0 {
+		add("B", 1)
+		add("F", r.Intn(3))
+	}
+	return sc
+}
+
 func runOne(c *vh.Ctx, cf *vh.CaseFile, sc scenario, seed uint64) {
 	c.Begin(sc)
 	out := runScenario(sc, seed)
 	canon, _ := json.Marshal(sc)
-	c.Res.Count(string(canon), len(sc.Script) >= 3, fmt.Sprintf("limit=%d", sc.Limit))
+	class := fmt.Sprintf("limit=%d", sc.Limit)
+	if sc.Pipe {
+		class = "pipeline," + class
+	}
+	c.Res.Count(string(canon), len(sc.Script) >= 3, class)
 	monitor(c, sc, out)
 	cf.Add(coqCase(sc, out), map[string]any{"scenario": sc, "outcome": out})
 	nreq := 0
@@ -507,11 +643,11 @@ func run(c *vh.Ctx) error {
 			return fmt.Errorf("fixture %s does not decode to its mainnet slot/hash: %v", f.Name, err)
 		}
 	}
-	c.Res.Rule = "a scenario = pipeline limit (0..10, 25, 100), a server script of 1..60 updates (roll forward with real blocks of 7 eras, roll backward, optional AwaitReply, held/bursty/coalesced replies), slow callbacks, Stop() at a random callback count or after the script; distinct by the scenario JSON; non-trivial = at least 3 updates"
+	c.Res.Rule = "a scenario = pipeline limit (0..10, 25, 100), a server script of 1..60 updates (roll forward with real blocks of 7 eras, roll backward, optional AwaitReply, held/bursty/coalesced replies), slow callbacks, Stop() at a random callback count or after the script; plus a block-pipeline class (real pipeline.BlockPipeline, ApplyFunc gated until the following RollBackward has been sent, drain timeout at its zero default, scripts RF..RF RB RF.. RB RF..); distinct by the scenario JSON; non-trivial = at least 3 updates"
 	c.Res.Modelled = []string{
 		"the engine's pipelined send path is abstracted: SendMessage = written (an upper bound); engine itself C11-C13",
 		"Stop() is not a label of the LTS: only the absence of its wait cycle is proved (C21_stop_no_wait_cycle); its behaviour is monitored",
-		"callbacks return nil; no block pipeline (config.Pipeline nil); node-to-client flavour (whole blocks)",
+		"callbacks return nil; node-to-client flavour (whole blocks); with a block pipeline the pipeline itself (decode/apply stages, WaitForDrain = PendingCount() == 0) is abstracted as an in-order in-flight list (the pipeline is C42-C44) and ApplyFunc terminates within the drain timeout",
 	}
 	cf := c.NewCaseFile("c21", header())
 	cf.SetShardSize(40)
@@ -531,6 +667,11 @@ func run(c *vh.Ctx) error {
 		runOne(c, cf, rp.Replay.Scenario, 1)
 		cf.Flush()
 		return nil
+	}
+	// block-pipeline class first (regression corpus: the seeded drain-timeout change)
+	runOne(c, cf, scenario{Limit: 1, StopAt: -1, Pipe: true, Script: []update{{Kind: "F", Fix: 0}, {Kind: "F", Fix: 1, Tip: 1}, {Kind: "B", Fix: 2, Tip: 2}}}, 1)
+	for k := 0; k < c.Pick(4, 24); k++ {
+		runOne(c, cf, genPipeScenario(c.Rng, []int{1, 2, 3, 5, 10, 25}[c.Rng.Intn(6)]), c.Rng.U64())
 	}
 	limits := []int{0, 1, 2, 3, 4, 5, 6, 7, 8, 9, 10, 25, 100}
 	reps := c.Pick(3, 25)
